@@ -97,6 +97,22 @@ func drawBytes(t *core.Tape, ml int) []byte {
 			b[0], b[len(b)-1] = 0, 0
 		}
 	}
+	// whole machine words of zeros at one end: values like 2^64*k, whose lowest limb says nothing
+	// about them (the defect repaired by 2df5f9a compared lowest limbs only; the thorough tier found
+	// it at run 4345, the quick tier should not depend on that luck)
+	if len(b) >= 9 && t.Bool("val.limb", 300) {
+		k := 8
+		if len(b) >= 17 && t.Bool("val.limb", 400) {
+			k = 16
+		}
+		z := b[:k]
+		if t.Bool("val.limb", 500) {
+			z = b[len(b)-k:]
+		}
+		for i := range z {
+			z[i] = 0
+		}
+	}
 	return b
 }
 
@@ -121,7 +137,22 @@ func state(pool []*mod.Int) string {
 		}
 		parts = append(parts, part)
 	}
-	return fmt.Sprintf("%x [%s]", h.Sum(nil)[:8], strings.Join(parts, " "))
+	// the order relation is part of the state: every value against a fresh zero and one of its own
+	// modulus (short operands) and against its successor in the pool. (The defect repaired by 2df5f9a
+	// - Equal/Cmp looked at the lowest limbs only when the operands had different announced lengths -
+	// was only visible when the call sequence happened to compare such a pair.)
+	rel := ""
+	for i, v := range pool {
+		v := v
+		w := pool[(i+1)%len(pool)]
+		if pn := core.Guard(func() {
+			z, o := mod.NewInt64(0, v.M), mod.NewInt64(1, v.M)
+			rel += fmt.Sprintf("%d%d%d%t%t%t,", v.Cmp(z)+1, v.Cmp(o)+1, v.Cmp(w)+1, z.Equal(v), v.Equal(o), v.Equal(w))
+		}); pn != nil {
+			rel += "panic,"
+		}
+	}
+	return fmt.Sprintf("%x [%s] %s", h.Sum(nil)[:8], strings.Join(parts, " "), rel)
 }
 
 func (Engine) RunOne(t *core.Tape, prop, tier string, info *core.RunInfo) *core.Violation {
